@@ -6,7 +6,7 @@ cd /verif
 id=$1
 ./bin/vcheck check $id --write-ledger >/dev/null
 ./bin/vcheck check $id | tail -1
-git -C /repo log --grep '^verif hooks' --format=%H | python3 -c 'import sys,json; json.dump([l.strip() for l in sys.stdin if l.strip()], open("tools/hook_commits.json","w"))'
+git -C /repo log --grep '^verif' --format=%H | python3 -c 'import sys,json; json.dump([l.strip() for l in sys.stdin if l.strip()], open("tools/hook_commits.json","w"))'
 python3 tools/gen_manifest.py
 python3-vt - <<'PY'
 import json, jsonschema
